@@ -705,13 +705,106 @@ def spec_socks_response_reader(ck, inmax=400):
 
 # =========================================================================== StreamFrameReader::read under arbitrary segmentation
 
-def spec_stream_frame_reader(ck, nreads=3):
+def stream_reader_representation_known(ck):
+    """the one-step spec below injects an arbitrary reader state as {inner, remaining: Option<BytesMut>}"""
+    f = ck.si.structs.get('StreamFrameReader')
+    t = getattr(ck.si, 'struct_types', {}).get('StreamFrameReader', {})
+    return f == ['inner', 'remaining'] and t.get('remaining', '').replace(' ', '') == 'Option<BytesMut>'
+
+
+def spec_stream_frame_reader_history(ck, nreads=4):
+    """representation-independent: a reader made by the real StreamFrameReader::new over a stream that holds exactly TWO
+    well-formed frames (attribute and body lengths 0..3 each) delivered in <= nreads pieces of arbitrary sizes; read() is called
+    three times: the first frame's bytes are decoded, then the second's, then end of stream -- whatever the segmentation."""
+    from specs.fragment import prove_bytes_eq
+    rd = ck.find(lambda: ck.db.method('StreamFrameReader', 'read', trait='FrameReader'), 'StreamFrameReader::read')
+    new = ck.find(lambda: ck.db.method('StreamFrameReader', 'new'), 'StreamFrameReader::new')
+    if rd is None or new is None:
+        return
+    ex = ck.engine(loop_bound=nreads + 3)
+    ex.read_budget = nreads
+    ex.type_bindings.update({'T': 'Stream'})
+
+    def fb_summary(ctx):
+        b = ctx.ex.deref(ctx.st, ctx.args[0])
+        fr = Agg('Frame', {0: Opaque('Option<TargetAddress>', 'addr'), 1: Int(z3.BitVec(fresh_name('sid'), 32), 32), 2: Bytes.symbolic('fbody')})
+        ctx.st.trace.append(('from_buffer', b, fr))
+        return C.mk_result(ctx.ex, ok=fr)
+    ex.overrides.append((re.compile(r'(?:^|::)Frame::from_buffer$'), fb_summary))
+    st = State()
+    S = sym_bytes(ex, st, 'stream', 2 * (12 + 6))
+    MAGIC = BV(0x5250464d, 32)
+
+    def need_at(off):
+        return BV(12, 64) + z3.ZeroExt(48, z3.Concat(S.at(off + 8), S.at(off + 9))) + z3.ZeroExt(48, z3.Concat(S.at(off + 10), S.at(off + 11)))
+
+    def wf(off):
+        a = z3.Concat(S.at(off + 8), S.at(off + 9))
+        b = z3.Concat(S.at(off + 10), S.at(off + 11))
+        return z3.And(z3.Concat(S.at(off), S.at(off + 1), S.at(off + 2), S.at(off + 3)) == MAGIC, z3.ULE(a, BV(3, 16)), z3.ULE(b, BV(3, 16)))
+    n1 = simp(need_at(BV(0, 64)))
+    ex.assume(st, wf(BV(0, 64)))
+    ex.assume(st, wf(n1))
+    n2 = simp(need_at(n1))
+    ex.assume(st, S.len == n1 + n2)
+    ex.inputs = {'stream': S}
+    starts = [BV(0, 64), n1]
+    needs = [n1, n2]
+    outs0 = ex.call_fn(st, new, [Stream('peer', S)])
+    allf = list(outs0)
+    frontier = []
+    for o in outs0:
+        if o.status == 'returned':
+            cell = o.alloc(o.ret)
+            frontier.append((o, cell))
+    reached = 0
+    for k in range(3):
+        nxt = []
+        for s, cell in frontier:
+            s2 = s.fork()
+            n0 = len(s2.trace)
+            for o, r in run_async(ex, s2, rd, [Ref(cell, ())]):
+                allf.append(o)
+                if o.status != 'returned' or r is None:
+                    continue
+                o.env['inputs'] = dict(o.env.get('inputs', {}), read_sizes=[Int(x, 64) for x in o.env.get('read_sizes', [])])
+                ok, opt = _ok_payload(r)
+                calls = [e for e in o.trace[n0:] if e[0] == 'from_buffer']
+                some = z3.BoolVal(False)
+                if isinstance(opt, Agg) and opt.discr is not None:
+                    some = _discr(opt) == BV(1, 64)
+                reached += 1
+                if k < 2:
+                    ex.prove(o, 'C12/stream-frames/history/each-frame-comes-out-once-in-order', z3.And(ok, some, z3.BoolVal(len(calls) == 1)))
+                    if len(calls) == 1:
+                        prove_bytes_eq(ex, o, 'C12/stream-frames/history/decoded-bytes-are-exactly-that-frame', calls[0][1], S.slice(starts[k], needs[k]))
+                        nxt.append((o, cell))
+                else:
+                    ex.prove(o, 'C12/stream-frames/history/end-of-stream-after-the-last-frame', z3.And(ok, z3.Not(some), z3.BoolVal(len(calls) == 0)))
+        frontier = nxt
+    if not reached:
+        ck.add('C12/stream-frames/history/reachability', 'vacuous', 'read() never returned in the model')
+    for f in ex.findings:
+        if not hasattr(f, 'target'):
+            f.target = 'stream frame reader history'
+    ck.absorb(ex, 'StreamFrameReader::read x3 (two frames)', allf)
+    ck.bounds['stream-frame-reader-history'] = 'a fresh reader, two well-formed frames (attribute / body lengths 0..3) in <= %d pieces of any sizes, three read() calls' % nreads
+
+
+def spec_stream_frame_reader(ck, nreads=3, with_history=False):
     """one read() call from an ARBITRARY reader state (carry-over buffer = any already-delivered prefix of the rest of
     the stream), the stream delivered by <= nreads reads of arbitrary positive sizes.  Covers call sequences by induction.
     Frame::from_buffer is summarised during this exploration (assume/guarantee): it is called on some buffer B and its
     result is returned unchanged; the guarantees checked are (a) B is exactly the next frame's bytes, (b) the carry-over
     is exactly the delivered-but-unread suffix, (c) [separately, with the real from_buffer] decoding such a B never fails
     -- which is what the unwrap() in read() relies on."""
+    known = stream_reader_representation_known(ck)
+    if with_history or not known:
+        spec_stream_frame_reader_history(ck, nreads=3 if ck.tier == 'quick' else 4)
+    if not known:
+        ck.notes.append('StreamFrameReader is not {inner, remaining: Option<BytesMut>}: the one-step spec from an arbitrary reader state is '
+                        'not applied; the history from a fresh reader is')
+        return
     rd = ck.find(lambda: ck.db.method('StreamFrameReader', 'read', trait='FrameReader'), 'StreamFrameReader::read')
     fb = ck.find(lambda: ck.db.method('Frame', 'from_buffer'), 'Frame::from_buffer')
     ck.find(lambda: ck.db.method('Frame', 'read_head'), 'Frame::read_head')
